@@ -108,7 +108,9 @@ func (s *Service) CurrentSlot() phase0.Slot {
 	if s.genesisTime.After(time.Now()) {
 		return phase0.Slot(0)
 	}
-	return phase0.Slot(uint64(time.Since(s.genesisTime).Seconds()) / uint64(s.slotDuration.Seconds()))
+	// Whole seconds by integer division: Duration.Seconds() is a float64 that rounds the last
+	// nanoseconds of a second up to the next second once the chain is more than 2^24 seconds old.
+	return phase0.Slot(uint64(time.Since(s.genesisTime)/time.Second) / uint64(s.slotDuration.Seconds()))
 }
 
 // CurrentEpoch provides the current epoch.
@@ -116,7 +118,7 @@ func (s *Service) CurrentEpoch() phase0.Epoch {
 	if s.genesisTime.After(time.Now()) {
 		return phase0.Epoch(0)
 	}
-	return phase0.Epoch(uint64(time.Since(s.genesisTime).Seconds()) / (uint64(s.slotDuration.Seconds()) * s.slotsPerEpoch))
+	return phase0.Epoch(uint64(time.Since(s.genesisTime)/time.Second) / (uint64(s.slotDuration.Seconds()) * s.slotsPerEpoch))
 }
 
 // SlotToEpoch provides the epoch of a given slot.
